@@ -69,7 +69,16 @@ class CompositeOperation(Generic[OperationType]):
         Displacement
             The combined operation to perform on the atoms.
         """
-        return np.sum([op.calculate(context) for op in self.operations], axis=0)
+        results = [op.calculate(context) for op in self.operations]
+
+        if not results:
+            return 0.0
+
+        total = results[0]
+        for result in results[1:]:
+            total = np.add(total, result)
+
+        return total
 
     @overload
     def __add__(
